@@ -6,7 +6,9 @@ import (
 	"math"
 	"strconv"
 	"strings"
+	"sync/atomic"
 	"time"
+	"unsafe"
 
 	"github.com/d5/tengo/v2/parser"
 	"github.com/d5/tengo/v2/token"
@@ -1343,7 +1345,17 @@ func (o *ObjectPtr) Equals(x Object) bool {
 type String struct {
 	ObjectImpl
 	Value   string
-	runeStr []rune
+	runeStr unsafe.Pointer // *[]rune, lazily built; string constants are shared by concurrently running clones
+}
+
+// runes returns the string as a rune slice, building it on first use.
+func (o *String) runes() []rune {
+	if p := (*[]rune)(atomic.LoadPointer(&o.runeStr)); p != nil {
+		return *p
+	}
+	r := []rune(o.Value)
+	atomic.StorePointer(&o.runeStr, unsafe.Pointer(&r))
+	return r
 }
 
 // TypeName returns the name of the type.
@@ -1437,25 +1449,21 @@ func (o *String) IndexGet(index Object) (res Object, err error) {
 		return
 	}
 	idxVal := int(intIdx.Value)
-	if o.runeStr == nil {
-		o.runeStr = []rune(o.Value)
-	}
-	if idxVal < 0 || idxVal >= len(o.runeStr) {
+	runeStr := o.runes()
+	if idxVal < 0 || idxVal >= len(runeStr) {
 		res = UndefinedValue
 		return
 	}
-	res = &Char{Value: o.runeStr[idxVal]}
+	res = &Char{Value: runeStr[idxVal]}
 	return
 }
 
 // Iterate creates a string iterator.
 func (o *String) Iterate() Iterator {
-	if o.runeStr == nil {
-		o.runeStr = []rune(o.Value)
-	}
+	runeStr := o.runes()
 	return &StringIterator{
-		v: o.runeStr,
-		l: len(o.runeStr),
+		v: runeStr,
+		l: len(runeStr),
 	}
 }
 
